@@ -23,10 +23,12 @@ For every unit the verifier demands
 * **constants**: every constant index is in range and of the kind the VM reads it as;
 * **balance**: there is an assignment of a depth triple (open sequence builders, open string
   builders, open try blocks) to every reachable instruction, `(0,0,0)` at entry, that is preserved
-  along every edge (so it is consistent at every join), never goes negative (`SequencePush*`,
-  `SequenceTo*` need an open sequence; `StringPush`, `StringFinish` an open string; `TryEnd` an
-  open try), and has no open builder at `Return`. (Open try blocks at `Return` are allowed: the
-  catch stack is part of the VM frame and is dropped with it.)
+  along every edge — so the depths at the source and the target of every jump inside the unit agree
+  and are consistent at every join; the catch target of a `TryStart` is entered with the depths at the
+  `TryStart` (plus its own catch point) — and never goes negative (`SequencePush*`, `SequenceTo*`
+  need an open sequence; `StringPush`, `StringFinish` an open string; `TryEnd` an open try).
+  A `Return` may leave builders and try blocks open: the catch stack is part of the VM frame, and
+  since fix 97373d1 `pop_frame` truncates both builder stacks to their lengths at frame entry.
 
 The depth assignment is *inferred* by an untrusted linear pass (`annotate`) and then *checked*
 (`checkAnns`); only the check matters for the soundness theorems (Props/C05.lean).
@@ -174,12 +176,6 @@ def applyEff (op : Op) (d : Depth) : Option Depth :=
   | .TryEnd => if d.try_ = 0 then none else some { d with try_ := d.try_ - 1 }
   | _ => some d
 
-/-- No open builder when the frame is left by `Return`. -/
-def exitOk (op : Op) (d : Depth) : Bool :=
-  match op with
-  | .Return => d.seq = 0 && d.str = 0
-  | _ => true
-
 /-! ### Lookups in a listing -/
 
 def findPc (l : List Ann) (p : Nat) : Option Ann := l.find? (·.pc == p)
@@ -209,7 +205,7 @@ def localChecks (rc : Nat) (consts : List CKind) (look : Nat → Option Ann) (a 
       | none => true
       | some d =>
         match applyEff a.ins.op d, succPcs a with
-        | some d', some ps => exitOk a.ins.op d && ps.all (fun p => (look p).any (fun b => b.d == some d'))
+        | some d', some ps => ps.all (fun p => (look p).any (fun b => b.d == some d'))
         | _, _ => false) ]
 
 def localOk (rc : Nat) (consts : List CKind) (look : Nat → Option Ann) (a : Ann) : Bool :=
